@@ -27,9 +27,9 @@ Hypotheses (all explicit, vocabulary in Spec/SatSpec.lean):
   `LocksMet env s`  the transaction's nLockTime / nSequence pass CLTV / CSV for the locks the
                     satisfaction REPORTS (`abs`/`rel` fields = `absolute_timelock`/`relative_timelock`)
 
-The satisfier's `assert!`s (not modelled as panics) are treated at the end: they CAN fire on a
-sane script (`asserts_fail_nonZero`, reproduced on the library), and cannot in non-malleable
-mode without `j:` (`asserts_hold_partial`).
+The satisfier's `assert!`s (not modelled as panics) are treated at the end: they cannot fire
+in non-malleable mode (`asserts_hold_nonmall`), and CAN fire in malleable mode
+(`asserts_fail_mall`, reproduced on the library).
 -/
 import MsVerif.Lemmas.SatSound
 import MsVerif.Lemmas.SatAsserts
@@ -116,46 +116,46 @@ end main
 
 /-! ## The `assert!`s of the satisfier (not modelled as panics) -/
 
-/-- **The asserts can fire.**  `or_d(or_i(j:and_v(v:pk(K0),pk(K1)),and_v(v:pk(K2),0)),pk(K3))`
-is well-typed, non-malleable and signed (a SANE script); with a signature for K2 only, in
-non-malleable mode, the dissatisfaction the model computes for the left child of `or_d` has
-`has_sig = true`, i.e. `assert!(!l_dis.has_sig)` (sat_dissat.rs, `Terminal::OrD`) fails.
-Reproduced on the library: `Miniscript::satisfy` and `Descriptor::get_satisfaction` on
-`wsh(…)` panic at sat_dissat.rs:428.  Root cause: `Terminal::NonZero` reports its
-dissatisfaction as IMPOSSIBLE instead of `push_0` (finding F3). -/
-theorem asserts_fail_nonZero :
-    (typeOf exA).map (fun t => (t.corr.base, t.mall.nonMall, t.mall.signed)) = some (.B, true, true) ∧
-    assertsOk cfgA exA = false := by decide
-
-/-- a second, malleable-mode-only way to make the `OrD` assert fire without `j:`: mixed
-height/time relative locks in an `and_b` make its dissatisfaction IMPOSSIBLE
-(`or_d(or_i(and_b(or_i(0,and_v(v:older(1),0)),a:or_i(0,and_v(v:older(4194305),0))),and_v(v:pk(K2),0)),pk(K3))`) -/
-theorem asserts_fail_mall : (typeOf exB).isSome = true ∧ assertsOk cfgB exB = false := by decide
-
-/-- the unrestricted claim "no assert fires on a well-typed script" … -/
-def asserts_hold_full : Prop :=
-  ∀ (c : SatCfg) (ms : Ms) (τ : Ty), typeOf ms = some τ → assertsOk c ms = true
-
-/-- … is false. -/
-theorem asserts_hold_full_false : ¬ asserts_hold_full :=
-  SatSpec.asserts_hold_full_false
-
-/-- **Where the asserts provably hold**: non-malleable mode, no `j:` wrapper (and `k ≤ n` at
-every `thresh`, which `Threshold::new` guarantees): for every well-typed script and every asset
-set none of the `assert!`s in `sat_dissat` / `Satisfaction::thresh` fires. -/
-theorem asserts_hold_partial (c : SatCfg) (hm : c.mall = false) (ms : Ms) (τ : Ty)
-    (hty : typeOf ms = some τ) (hj : noNonZero ms = true) (hk : threshKOk ms = true) :
+/-- **Where the asserts provably hold**: non-malleable mode (and `k ≤ n` at every `thresh`,
+which `Threshold::new` guarantees): for every well-typed script and every asset set none of the
+`assert!`s in `sat_dissat` (or_b / or_c / or_d) and `Satisfaction::thresh` fires. -/
+theorem asserts_hold_nonmall (c : SatCfg) (hm : c.mall = false) (ms : Ms) (τ : Ty)
+    (hty : typeOf ms = some τ) (hk : threshKOk ms = true) :
     assertsOk c ms = true :=
-  SatSpec.asserts_hold_partial c hm ms τ hty hj hk
+  SatSpec.asserts_hold_nonmall c hm ms τ hty hk
 
 /-- under the same hypotheses every dissatisfaction computed for a `d`-typed fragment is
 signature-free, lock-free and not IMPOSSIBLE -/
-theorem dissat_clean_partial (c : SatCfg) (hm : c.mall = false) (ms : Ms) (τ : Ty)
-    (hty : typeOf ms = some τ) (hj : noNonZero ms = true) (hk : threshKOk ms = true)
-    (hd : τ.corr.dissat = true) :
+theorem dissat_clean_nonmall (c : SatCfg) (hm : c.mall = false) (ms : Ms) (τ : Ty)
+    (hty : typeOf ms = some τ) (hk : threshKOk ms = true) (hd : τ.corr.dissat = true) :
     (satDissat c ms).dissat.hasSig = false ∧ (satDissat c ms).dissat.stack ≠ .impossible ∧
       (satDissat c ms).dissat.abs = none ∧ (satDissat c ms).dissat.rel = none :=
-  SatSpec.dissat_clean_partial c hm ms τ hty hj hk hd
+  SatSpec.dissat_clean_nonmall c hm ms τ hty hk hd
+
+/-- `or_d(or_i(j:and_v(v:pk(K0),pk(K1)),and_v(v:pk(K2),0)),pk(K3))` with a signature for K2
+only made `assert!(!l_dis.has_sig)` (`Terminal::OrD`) fire — a panic on a sane script through
+`Miniscript::satisfy` / `Descriptor::get_satisfaction` — while `Terminal::NonZero` reported
+its dissatisfaction as IMPOSSIBLE (finding F3).  With the fix (`j:` dissatisfies with one
+empty push, mirrored in the model) the script is silent. -/
+theorem asserts_exA_silent :
+    (typeOf exA).map (fun t => (t.corr.base, t.mall.nonMall, t.mall.signed)) = some (.B, true, true) ∧
+    assertsOk cfgA exA = true := by decide
+
+/-- **In malleable mode the asserts can still fire**: mixed height/time relative locks in an
+`and_b` make its dissatisfaction IMPOSSIBLE, so `minimum_mall` hands `or_d` a dissatisfaction
+with a signature
+(`or_d(or_i(and_b(or_i(0,and_v(v:older(1),0)),a:or_i(0,and_v(v:older(4194305),0))),and_v(v:pk(K2),0)),pk(K3))`,
+signature for K2, `check_older` true; reproduced on the library: `satisfy_malleable` and
+`get_satisfaction_mall` on `wsh(…)` panic at sat_dissat.rs, `Terminal::OrD`). -/
+theorem asserts_fail_mall : (typeOf exB).isSome = true ∧ assertsOk cfgB exB = false := by decide
+
+/-- the unrestricted claim "no assert fires on a well-typed script, in either mode" … -/
+def asserts_hold_full : Prop :=
+  ∀ (c : SatCfg) (ms : Ms) (τ : Ty), typeOf ms = some τ → assertsOk c ms = true
+
+/-- … is false (malleable mode, `asserts_fail_mall`). -/
+theorem asserts_hold_full_false : ¬ asserts_hold_full :=
+  SatSpec.asserts_hold_full_false
 
 /-! ## Non-vacuity: a toy world in which every hypothesis holds -/
 
